@@ -252,11 +252,12 @@ def make_callable(rng, ident):
     p, q, r = rng.choice([(1000, 1, 0), (1, 1000, 5), (-1000, 3, -7), (37, -1000, 11)])
     vt = rng.choice(VALUE_TYPES)
 
-    def spec(a, b, offset=0, scale=1, mode='x', flag=True, k=3, tag='t', opts=(1,), **more):
+    def spec(a, b, offset=0, scale=1, mode='x', flag=True, k=3, tag='t', opts=(1,), table=None, grid=None, **more):
         v = scale * (p * ident[str(a)] + q * ident[str(b)]) + r + offset + 100000 * sum(more.values())
         # keyword arguments with falsy values count: None / False / 0 / '' / () are not the defaults
         v += 1000000 * ((mode is None) + 2 * (flag is False) + 4 * (k == 0) + 8 * (tag == '') + 16 * (opts == ()) +
-                        32 * (mode == 'y') + 64 * (k == 2) + 128 * (tag == 'u') + 256 * (opts == (2, 3)))
+                        32 * (mode == 'y') + 64 * (k == 2) + 128 * (tag == 'u') + 256 * (opts == (2, 3)) +
+                        512 * (table == {'A': 1}) + 1024 * (grid == [1, 2]))
         if vt == 'float':
             return v / 8.0 + 0.375
         if vt == 'mixed':
@@ -305,6 +306,11 @@ def draw_kwargs(rng):
     for name, lo, hi in [('offset', 0, 5), ('scale', 1, 3), ('gap', 0, 4), ('weights', 0, 4), ('score_cutoff', 0, 4), ('dm', 1, 3), ('i', 1, 3)]:
         if rng.random() < 0.25:
             kw[name] = rng.randint(lo, hi)
+    # values that cannot be hashed (a substitution table, a grid): forwarded like any other keyword (seeded change C08-r6m2)
+    if rng.random() < 0.2:
+        kw['table'] = {'A': 1}
+    if rng.random() < 0.2:
+        kw['grid'] = [1, 2]
     return kw
 
 
